@@ -210,6 +210,10 @@ def handle : List String → String
       pure (if signedArea2 ring ≤ 0 || !ringConvex ring then "nonconvex" else
         match halfspaces m (polygonPlanes ring) pts with
         | .inside => "in" | .outside => "out" | .undecided => "und")).getD "bad-op"
+  | ["pim", m, c, pts] => (do
+      let m ← m.toInt?; let c ← parseMesh c; let pts ← parsePts pts
+      pure (match pointsInMesh m c pts with
+        | .inside => "in" | .outside => "out" | .undecided => "und")).getD "bad-op"
   | "los" :: m :: eye :: centre :: targets :: occ => (do
       let m ← m.toInt?; let eye ← parseV3 eye; let centre ← parseV3 centre
       let targets ← parsePts targets; let occ ← occ.mapM parseMesh
